@@ -76,7 +76,7 @@ CHECKS.update({
    text="17 configurations (uni-STARK, direct batch-STARK, ZK/hiding PCS incl. salted hiding MMCS, circuit-prover batch proofs; BabyBear D4, KoalaBear D4/D5, Goldilocks D2, arity-4 MMCS) x generated FRI parameters, AIRs (public values, preprocessed columns, degrees 2-4, periodic columns, no-next-row) and heights: the honest proof must be accepted by both verifiers; each of 1-12 single-leaf alterations (field element, digest word, index, public value, commitment, common data) must be judged identically by the native verifier and by the circuit (built from the altered bundle, MMCS on); a third of the cases add a proof made by the release prover from a trace with one altered cell (the only rejected proofs on which the quotient connect / LogUp terminal sum is the sole failing check). Every numeric leaf of 29 small proofs is enumerated (12789 leaves). Thorough: 160 proofs with all 141228 leaves at two values each.",
    note="Trusted: p3-uni-stark / p3-batch-stark native verifiers. Deterministic PoW grinding wrapper makes replays exact. Statement metadata of BatchStarkProof is not altered (C16's subject). Two completeness findings listed (periodic columns; AIRs that never read the next row in the uni circuit).", ref="DESIGN.md §3 C01, §7", engine="E3+E4"),
  "C17": dict(cat="exploration", tech="model-based property testing (proptest) over call histories of the recursion API: generated sequences of next-layer / aggregation / parameter-change steps with cache disciplines, model = statement carried by each output and circuit digest carried by each cache; native verification of every layer output as oracle",
-   text="Histories of up to 3 (thorough 5) proving steps over the unified recursion API (prove_next_layer, prove_aggregation_layer) on KoalaBear/BabyBear D4: left/right inputs are uni-STARK or batch-STARK statements or earlier outputs, valid or invalid; each step uses no cache, a fresh cache or a cache reused from any earlier call; parameter changes (table packing, constraint profile, FRI arity/queries, PoW bits) between steps. After every step: valid inputs with no/fresh/same-circuit cache must give Ok and an output that verifies natively (and agree with the uncached call); invalid inputs must give Err under every cache discipline; a cache prepared for a different circuit must give Err or a verifying output, never a non-verifying output or a panic; outputs chain into later steps. 800 generated + 60 engineered histories per quick run. Engineered histories cover fill / parameter change / miss / hit sequences on one cache slot.",
+   text="Histories of up to 3 (thorough 5) proving steps over the unified recursion API (prove_next_layer, prove_aggregation_layer) on KoalaBear/BabyBear D4: left/right inputs are uni-STARK or batch-STARK statements or earlier outputs, valid or invalid; each step uses no cache, a fresh cache or a cache reused from any earlier call; parameter changes (table packing, constraint profile, FRI arity/queries, PoW bits) between steps. After every step: valid inputs with no/fresh/same-circuit cache must give Ok and an output that verifies natively (and agree with the uncached call); invalid inputs must give Err under every cache discipline; a cache prepared for a different circuit must give Err or a verifying output, never a non-verifying output or a panic; outputs chain into later steps. 800 generated + 60 engineered histories per quick run. Engineered histories cover fill / parameter change / miss / hit sequences on one cache slot. Two further sub-checks (cross-histories, cross-engineered) drive the cross-configuration aggregation API with five (input, output) configuration pairs: plain to plain with different FRI parameters, plain/hiding in all combinations, plain to arity-4 MMCS.",
    note="The model's circuit digest is computed from the full op list, not from the repo's four fingerprint counters. Two cache-handling findings listed (next-layer cache carries no fingerprint; aggregation fingerprint does not identify the circuit). Quick tier is 1000+ CPU-seconds.", ref="DESIGN.md §3 C17, §7", engine="E5"),
 })
 
